@@ -111,6 +111,17 @@ def gen_cases(ctx, n):
                 add(d[:cut], ["n"] * 6, kind, "truncated-list")
                 if cut % (2 * step) == 0:
                     add(d[:cut], ["n", "c", "n", "r100000", "n", "c", "n"], kind, "truncated-decode")
+    # callback sources whose read reports an I/O error (-1, the documented value) from some offset on - also in the middle of
+    # a member that is being skipped by reading: every call must still return (judged on the C alone; the model's sources do not fail)
+    for _ in range(max(6, n // 12)):
+        name, d = r.choice(smalls)
+        if len(d) < 60:
+            continue
+        off = r.choice([0, 1, 20, 21, 33, 40, len(d) // 2, len(d) - 5, r.randrange(len(d))])
+        k_ = r.choice(["cbnoskiperr:%d" % off, "cbnoskiperr:%d" % off, "cbskiperr:%d" % off])
+        for toks in (["n"] * 5, ["n", "r10", "n", "n", "n"], ["n", "c", "n", "x1", "n"]):
+            out.append(Case(A.rdr_op(k_, r.choice(A.POLICIES), toks, d), judge=mk_judge(len(d) + 64, len(toks)), tags={"read-error", "c-only"},
+                            note="extreme"))
     base = len(out)
     while len(out) < base + n:
         k = r.random()
